@@ -38,6 +38,7 @@ def run(ctx):
     ctx.each(cache_refresh_rule, ctx, repo, "R16o")
     ctx.each(r16p, ctx, repo)
     ctx.each(r16q, ctx, repo)
+    ctx.each(r16r, ctx, repo)
     ctx.each(informational, ctx, repo)
 
 
@@ -853,3 +854,43 @@ def r16q(ctx, repo):
     pr = [s_ for s_ in own_nodes(rd.node) if isinstance(s_, ast.Assign) and isinstance(s_.targets[0], ast.Subscript) and astq.is_name(s_.targets[0].value, kw.get("progs", "progs"))]
     ok = len(pr) == 1 and ast.unparse(pr[0].targets[0].slice) == "idx_to_header[i]" and "float(" in ast.unparse(pr[0].value)
     ctx.check(ok, "R16q", rd, pr[0] if pr else rd.node, "program outcomes keyed by the column header", "program outcomes are not stored as `progs[idx_to_header[i]] = float(<cell>)`", stmt_text="effects-read:progs")
+
+
+def r16r(ctx, repo):
+    from ..core import boolx as B
+    from ..core.cfg import branch_guards
+
+    ctx.rule("R16r", "targets survive the program book: _write_targeting writes 'Y' exactly for the populations / compartments in prog.target_pops / prog.target_comps (and 'N' otherwise); _read_targeting appends to target_pops / target_comps exactly for the cells that read 'y' (case and blanks ignored), looks the header of that same column up, and hands both lists to Program(target_pops=..., target_comps=...)")
+    wr = repo.func("programs", "ProgramSet._write_targeting")
+    for coll in ("target_pops", "target_comps"):
+        ys = [c for c in ast.walk(wr.node) if isinstance(c, ast.Call) and isinstance(c.func, ast.Attribute) and c.func.attr == "write" and len(c.args) >= 3 and isinstance(c.args[2], ast.Constant) and c.args[2].value == "Y" and any(coll in ast.unparse(t) for t, p in branch_guards(enclosing_stmt(c), stop=wr.node))]
+        ok = len(ys) == 1
+        if ok:
+            g = [(t, p) for t, p in branch_guards(enclosing_stmt(ys[0]), stop=wr.node) if coll in ast.unparse(t)]
+            ok = len(g) == 1 and g[0][1] and isinstance(g[0][0], ast.Compare) and isinstance(g[0][0].ops[0], ast.In) and ast.unparse(g[0][0].comparators[0]).endswith("." + coll)
+            iff = enclosing_stmt(ys[0])._parent
+            ns = [c for c in ast.walk(iff) if isinstance(c, ast.Call) and isinstance(c.func, ast.Attribute) and c.func.attr == "write" and len(c.args) >= 3 and isinstance(c.args[2], ast.Constant) and c.args[2].value == "N"] if isinstance(iff, ast.If) else []
+            ok = ok and len(ns) == 1 and any(enclosing_stmt(ns[0]) is x for x in iff.orelse)
+        ctx.check(ok, "R16r", wr, enclosing_stmt(ys[0]) if ys else wr.node, "'Y' written exactly for the members of %s" % coll, "_write_targeting does not write 'Y' exactly when the item is in `prog.%s` (and 'N' otherwise)" % coll, stmt_text="write-targets:%s" % coll)
+    rd = repo.func("programs", "ProgramSet._read_targeting")
+    for coll in ("target_pops", "target_comps"):
+        aps = [c for c in ast.walk(rd.node) if isinstance(c, ast.Call) and isinstance(c.func, ast.Attribute) and c.func.attr == "append" and astq.is_name(c.func.value, coll)]
+        ok = len(aps) >= 1
+        for a in aps:
+            lp = enclosing_stmt(a)
+            while lp is not None and not (isinstance(lp, ast.For) and isinstance(lp.target, ast.Name) and "range" in ast.unparse(lp.iter)):
+                lp = getattr(lp, "_parent", None)
+            if lp is None:
+                ok = False
+                break
+            i = lp.target.id
+            g = branch_guards(enclosing_stmt(a), stop=lp)
+            ytest = [(t, p) for t, p in g if "'y'" in ast.unparse(t)]
+            good = len(ytest) == 1 and ytest[0][1] and ("row[%s].value.lower().strip() == 'y'" % i in ast.unparse(ytest[0][0]) or "row[%s].value.strip().lower() == 'y'" % i in ast.unparse(ytest[0][0]))
+            # the appended name comes from the header of the same column
+            good = good and ("_idx[%s]" % i) in ast.unparse(a.args[0]) or (good and any(isinstance(x, ast.Name) and x.id == "spec" for x in ast.walk(a.args[0])))
+            ok = ok and good
+        ctx.check(ok, "R16r", rd, enclosing_stmt(aps[0]) if aps else rd.node, "%s filled exactly from the 'y' cells, named by the same column's header" % coll, "_read_targeting does not append to `%s` exactly for the cells whose text is 'y' using the header of the same column: targets are lost, added, or attributed to another population / compartment after a round trip" % coll, stmt_text="read-targets:%s" % coll)
+    ctor = [c for c in ast.walk(rd.node) if isinstance(c, ast.Call) and ast.unparse(c.func) == "Program"]
+    kw = {k.arg: ast.unparse(k.value) for k in ctor[0].keywords} if ctor else {}
+    ctx.check(len(ctor) == 1 and kw.get("target_pops") == "target_pops" and kw.get("target_comps") == "target_comps", "R16r", rd, enclosing_stmt(ctor[0]) if ctor else rd.node, "both target lists handed to Program(...)", "the program is not built with Program(target_pops=target_pops, target_comps=target_comps)", stmt_text="read-targets:ctor")
